@@ -589,6 +589,22 @@ def generate(prop, tier, seed, genfn=None, first=1):
             c['tag'] = 'back-pressure cap=2: ' + c.get('tag', '')
             extra.append(c)
         scens = scens + extra
+    if prop in ('C01', 'C02', 'C03', 'C06') and (genfn is None or genfn.__name__ == prop.lower()):
+        # the same programs between a client and a server that use no names at all (README: empty destination and server name)
+        import copy
+        extra = []
+        k = 0
+        for s in scens:
+            if s.get('topo') or s.get('runner') or s.get('rawsrv') or s.get('rawcli') or s.get('ncli') or s.get('srv') or s.get('dst'):
+                continue
+            k += 1
+            if k % (11 if tier == 'quick' else 5):
+                continue
+            c = copy.deepcopy(s)
+            c['anon'] = True
+            c['tag'] = 'no names: ' + c.get('tag', '')
+            extra.append(c)
+        scens = scens + extra
     for i, s in enumerate(scens):
         s['sc'] = first + i
         s.setdefault('steps', [])
